@@ -16,7 +16,7 @@ from fractions import Fraction
 import z3
 
 from .values import *  # noqa: F403
-from .values import (AList, ADict, ASet, CDict, CList, CVal, I, R, B, Mat, Obj, Opaque, RangeV, Ref,
+from .values import (AList, ADict, ASet, CDict, CList, CVal, GList, I, R, B, Mat, Obj, Opaque, RangeV, Ref,
                      Unsupported, fresh, is_bool, is_int, is_real, is_z3, lift, numeric_join, reset_names,
                      sort_of, to_c, to_int, to_real)
 
@@ -87,6 +87,9 @@ class Contract:
     kind: str = "function"                           # 'function' | 'getter' | 'setter'
     assumes: list = field(default_factory=list)      # named assumptions used by this contract
     pure: bool = False
+    modular: list | None = None                      # labels of the ensures clauses usable at call sites (None = all)
+    reads: list | None = None                        # for pure functions: the access paths the result depends on (memoisation key)
+    types_quick: dict | None = None                  # overrides of `types` in the quick tier (fewer type variants); thorough runs all
 
 
 class Executor:
@@ -109,6 +112,7 @@ class Executor:
         self.cover = []
         self.paths = 0
         self.unsupported = None
+        self.dead_ends = []
 
     @staticmethod
     def _filter_kind(cands, kind):
@@ -200,6 +204,10 @@ class Executor:
             elif ff:
                 choice = False
             else:
+                # neither outcome is feasible: the assumptions collected on this path are contradictory (a failed safety
+                # obligation that was then assumed, or an inconsistent callee contract).  Recorded: a run in which this
+                # happens while every obligation is proved is reported as vacuous.
+                self.dead_ends.append(len(self.obls))
                 raise PathEnd()
             self.prefix.append(choice)
         self.di += 1
@@ -307,6 +315,10 @@ class Executor:
             ln = z3.Int(name + ".len")
             self.pc.append(ln >= 0)
             return self.alloc(AList(ln, z3.Array(name + ".arr", I, sort_of(es)), es), prov)
+        if t == "glist":
+            ln = z3.Int(name + ".len")
+            self.pc.append(ln >= 0)
+            return self.alloc(GList(ln, ()), prov)
         if t.startswith("clist["):   # clist[3:int] concrete length list
             n, es = t[6:-1].split(":")
             items = tuple(self.make(f"{name}[{k}]", es, f"{prov}[{k}]") for k in range(int(n)))
@@ -373,6 +385,8 @@ class Executor:
                 return h.len > 0
             if isinstance(h, CList):
                 return z3.BoolVal(len(h.items) > 0)
+            if isinstance(h, GList):
+                return h.prefix + len(h.suffix) > 0
             if isinstance(h, ADict):
                 return h.n > 0
             if isinstance(h, CDict):
@@ -402,7 +416,7 @@ class Executor:
             return {v.tag}
         if isinstance(v, Ref):
             h = self.heap[v.id]
-            if isinstance(h, (AList, CList)):
+            if isinstance(h, (AList, CList, GList)):
                 return {"list"}
             if isinstance(h, (ADict, CDict)):
                 return {"dict"}
@@ -662,6 +676,10 @@ class Executor:
         """structural equality of heap values"""
         if a is b:
             return z3.BoolVal(True)
+        if isinstance(a, GList) and isinstance(b, GList):
+            if not a.prefix.eq(b.prefix) or len(a.suffix) != len(b.suffix):
+                return z3.BoolVal(False)
+            return z3.And(*[self.equal(x, y) for x, y in zip(a.suffix, b.suffix)]) if a.suffix else z3.BoolVal(True)
         if isinstance(a, CList) and isinstance(b, CList):
             if len(a.items) != len(b.items):
                 return z3.BoolVal(False)
@@ -962,9 +980,10 @@ class Executor:
             i = z3.simplify(to_int(lift(idx)))
             if z3.is_int_value(i):
                 k = i.as_long()
-                self.require(z3.BoolVal(-len(h.items) <= k < len(h.items)), "safe.IndexError", node)
                 if not -len(h.items) <= k < len(h.items):
-                    raise PathEnd()
+                    if getattr(self, "in_spec", False):
+                        raise Unsupported(f"specification indexes position {k} of a list of length {len(h.items)}")
+                    raise RaiseEx("IndexError", getattr(node, "lineno", 0))
                 return h.items[k]
             if all(is_z3(lift(x)) for x in h.items):
                 a = self.as_alist(h)
@@ -984,8 +1003,9 @@ class Executor:
                 else:
                     raise Unsupported("symbolic key into concrete dict")
             if not h.has(k):
-                self.require(z3.BoolVal(False), "safe.KeyError", node)
-                raise PathEnd()
+                if getattr(self, "in_spec", False):
+                    raise Unsupported(f"specification reads missing key {k!r}")
+                raise RaiseEx("KeyError", getattr(node, "lineno", 0))
             return h.get(k)
         if isinstance(h, Obj):
             return self.call_method(base, "__getitem__", [idx], {}, node)
@@ -1041,6 +1061,10 @@ class Executor:
         return None
 
     def slice(self, base, sl, env, node):
+        if isinstance(base, str):
+            lo = self._concrete_int(self.ev(sl.lower, env)) if sl.lower is not None else None
+            hi = self._concrete_int(self.ev(sl.upper, env)) if sl.upper is not None else None
+            return base[slice(lo, hi)]
         h = self.deref(base)
         lo = self.ev(sl.lower, env) if sl.lower is not None else None
         hi = self.ev(sl.upper, env) if sl.upper is not None else None
@@ -1412,6 +1436,21 @@ class Executor:
         """modular call: obligation = callee.requires; effect = havoc + callee.ensures"""
         self.used_contracts.add(callee.target)
         env = self.bind_args(fn, args, kwargs, node)
+        memo_key = None
+        if callee.pure:
+            if callee.reads is not None:
+                rel, cls_, _ = self.ix.find(callee.target)
+                self.cls_stack.append(cls_)
+                try:
+                    vals = [self.spec_val(r, env) for r in callee.reads]
+                finally:
+                    self.cls_stack.pop()
+            else:
+                vals = [env[k] for k in sorted(env)]
+            memo_key = (callee.target, self._sig(vals))
+            pm = self.__dict__.setdefault("pure_memo", {})
+            if memo_key in pm:
+                return pm[memo_key]      # a pure function of the same arguments and read set: same value (its precondition was checked at the first call)
         saved_cls = list(self.cls_stack)
         rel, cls, _ = self.ix.find(callee.target)
         self.cls_stack.append(cls)
@@ -1441,12 +1480,46 @@ class Executor:
                 res = self.make(f"ret_{qual}_{next_id()}", callee.result_type, "FRESH")
             extra = {"result": res, "__old_heap__": pre_heap}
             for lab, post in callee.ensures.items():
+                if callee.modular is not None and lab not in callee.modular:
+                    continue
                 f = self._callee_spec(callee, post, env, extra, old_heap=pre_heap)
                 # a fact about fresh symbols (result / havocked state): kept outside guard truncation
                 self.fact(z3.Implies(z3.And(*pre_conds), f) if pre_conds else f)
+            if memo_key is not None:
+                self.__dict__.setdefault("pure_memo", {})[memo_key] = res
             return res
         finally:
             self.cls_stack = saved_cls
+
+    def _sig(self, vals):
+        """signature of argument values including the contents reachable from references (pure-call memoisation)"""
+        out = []
+        seen = set()
+
+        def walk(v):
+            if isinstance(v, Ref):
+                if v.id in seen:
+                    out.append(("ref", v.id))
+                    return
+                seen.add(v.id)
+                h = self.heap[v.id]
+                out.append(("ref", v.id, id(h)))
+                if isinstance(h, Obj):
+                    for _, x in h.fields:
+                        walk(x)
+                elif isinstance(h, CList):
+                    for x in h.items:
+                        walk(x)
+            elif is_z3(v):
+                out.append(v.sexpr())
+            elif isinstance(v, tuple):
+                for x in v:
+                    walk(x)
+            else:
+                out.append(repr(v))
+        for v in vals:
+            walk(v)
+        return tuple(out)
 
     def _callee_spec(self, callee, text, env, extra, old_heap=None):
         saved = self.c
@@ -1508,6 +1581,10 @@ class Executor:
                 a = self.as_alist(h)
                 return self.havoc_hobj(a, name)
             raise Unsupported("havoc of concrete list with non-scalar elements")
+        if isinstance(h, GList):
+            ln = fresh(name + ".len")
+            self.pc.append(ln >= 0)
+            return GList(ln, ())
         if isinstance(h, ADict):
             d = ADict(fresh(name + ".n"), fresh(name + ".karr", z3.ArraySort(I, I)), fresh(name + ".dom", z3.ArraySort(I, B)),
                       fresh(name + ".val", z3.ArraySort(I, sort_of(h.vs))), fresh(name + ".idx", z3.ArraySort(I, I)), h.vs)
